@@ -101,15 +101,22 @@ End props.
 Theorem every_path_answers_once : table_ok = true /\ skips_ok = true.
 Proof. split; [exact all_arms_one_final|exact all_skips_are_noops]. Qed.
 
-(** base_sessions_count does drift from the listen slots (kept visible): add a
-    listener, remove it — the slot stays, the count drops. *)
-Theorem base_count_sound_refuted :
-  exists es, let w := fst (run (fun (v : unit) _ (_ : unit) => v) (mkW tt 3%Z 3 None true) es) in
-             w_base w <> Z.of_nat (w_slots w).
+(** Listener slot lifecycle: a configured listener owns exactly one slab slot
+    from Add*Listener to RemoveListener.  Adding takes one slot, deactivating
+    and re-activating leave the slots alone, removing a listener the proxy had
+    gives its slot back; base_sessions_count moves with the slots. *)
+Theorem listener_slot_lifecycle : forall (view : Type) (w : worker view) name o,
+    o_listener o = true ->
+    let w' := bookkeep w name o in
+    (is_add_listener name = true -> w_slots w' = S (w_slots w) /\ w_base w' = (w_base w + 1)%Z) /\
+    (name = "DeactivateListener" \/ name = "ActivateListener" -> w_slots w' = w_slots w /\ w_base w' = w_base w) /\
+    (name = "RemoveListener" -> o_applied o = true ->
+     w_slots w' = pred (w_slots w) /\ w_base w' = (w_base w - 1)%Z).
 Proof.
-  exists [EReq (mkReq 1 "AddTcpListener" tt) (mkOr 0 0 0 0 (fun _ => false) true true);
-          EReq (mkReq 2 "RemoveListener" tt) (mkOr 0 0 0 0 (fun _ => false) true true)].
-  vm_compute. discriminate.
+  intros view w name o Ho. cbv zeta. unfold bookkeep. split; [|split].
+  - intros Ha. rewrite Ha, Ho. split; reflexivity.
+  - intros [H|H]; subst name; cbn; rewrite ?Ho; cbn; split; reflexivity.
+  - intros H Happ. subst name. cbn. rewrite Happ, Ho. split; reflexivity.
 Qed.
 
 Example one_final_answer_nonvacuous :
